@@ -307,7 +307,7 @@ func judge(e *engine, log []Rec, res *Result, wedged, readersFinished bool, outs
 		}
 	}
 
-	judgeRetry(cs, log, add)
+	judgeRetry(cs, log, add, res.Stats["quiescent"] == 1 || wedged)
 
 	// ---- end-of-run accounting ----
 	accepted, committed, dropped, unaccounted := 0, 0, 0, 0
@@ -398,7 +398,7 @@ func judge(e *engine, log []Rec, res *Result, wedged, readersFinished bool, outs
 
 // judgeRetry is the C09 oracle: retry counts, growing pauses (lower envelope),
 // one-way routing of an exhausted batch.
-func judgeRetry(cs Case, log []Rec, add func(prop, sig, what string, w any)) {
+func judgeRetry(cs Case, log []Rec, add func(prop, sig, what string, w any), ended bool) {
 	if cs.Out.Plain {
 		return
 	}
@@ -552,6 +552,19 @@ func judgeRetry(cs Case, log []Rec, add func(prop, sig, what string, w any)) {
 			}
 		}
 		if !exhausted {
+			// acknowledged by the main output: committed exactly once by it
+			if ended && last.returned && last.ok && cs.StopAfterMs == 0 {
+				for _, id := range last.ids {
+					sid := strip(id)
+					if strings.Contains(sid, ".c") {
+						continue
+					}
+					if commits[sid] == 0 {
+						add("C09", "acknowledged-batch-never-committed", fmt.Sprintf("event %s of batch %d was acknowledged by the main output but never committed (the run went idle or stopped making progress)", sid, seq), nil)
+						break
+					}
+				}
+			}
 			continue
 		}
 		// one-way routing
